@@ -373,6 +373,7 @@ def padflag(F, rep):
     }
     for name, sp in sorted(spec.items()):
         f = F.fn(FINAL + "::" + name)
+        f = F.inlined(f) if f is not None else None
         if f is None:
             rep.anchor("C10.padflag", "Final::" + name)
             continue
@@ -630,6 +631,7 @@ def accessors(F, rep):
     }
     for nm, want in sorted(spec.items()):
         f = F.fn(VR + nm)
+        f = F.inlined(f, ("first_bit", "as_sum", "as_product", "bit_width", "pad_left", "pad_right")) if f is not None else None
         if f is None:
             rep.anchor("C10.accessor", "ValueRef::" + nm)
             continue
